@@ -85,6 +85,7 @@ RULES = {
     'P11c': ('rules_fut', 'Stream::poll mapping: Ready(Some) only after a successful commit; NotReady only after registering the task'),
     'P11d': ('rules_fut', 'every futures receive root that consumes a value drains the producer task list'),
     'P11h': ('rules_fut', 'a futures receive that released a slot pin drains the producer task list before returning'),
+    'P11i': ('rules_fut', 'a futures receiver that leaves its stream drains the producer task list afterwards, on every path'),
     'P11f': ('rules_fut', 'no peer-blocking call reachable from poll / start_send / poll_complete'),
     # ---- memory
     'P12a': ('rules_mem', 'retired objects deleted only after every registered token announced the epoch'),
@@ -125,13 +126,13 @@ RULES = {
 # breaking any of them shows up as lost / duplicated / reordered / overwritten / torn / double-dropped values, i.e.
 # under several of C01..C06 and C12 at once, so all of those checks evaluate all of them
 DATAPATH = ['P1a', 'P1b', 'P1c', 'P1d', 'P1e', 'P1f', 'P1g', 'P1h', 'P2a', 'P2b', 'P2e', 'P3a', 'P3b', 'P3c', 'P3e', 'P3f', 'P3g', 'P3t',
-            'P4', 'P4a', 'P4e', 'P5a', 'P5b', 'P5c', 'P5d', 'P9b', 'P10a', 'P10b', 'P10f', 'P10g', 'P10h', 'P9g', 'P15', 'P15m', 'P15w', 'S1', 'W1', 'W2', 'W3', 'W5', 'W8',
+            'P4', 'P4a', 'P4e', 'P5a', 'P5b', 'P5c', 'P5d', 'P9b', 'P10a', 'P10b', 'P10f', 'P10g', 'P10h', 'P9g', 'P9f', 'W7', 'P15', 'P15m', 'P15w', 'S1', 'W1', 'W2', 'W3', 'W5', 'W8',
             'W11', 'W13', 'P15i', 'O1', 'O2']
 
 # rules of the futures adapters and of parking / waking: a broken one shows up under C13, C14 or C15 (and C11 when the
 # wake-up that follows a stream removal is lost), so those checks share them
 FUTURES = ['P2d', 'P6b', 'P6c', 'P6d', 'P7c', 'P7d', 'P7e', 'P7f', 'P7g', 'P7h', 'P9d', 'P11a', 'P11b', 'P11c', 'P11d', 'P11e', 'P11f',
-           'P11g', 'P11h', 'P8']
+           'P11g', 'P11h', 'P11i', 'P8']
 
 PROPS = {
     'C01': DATAPATH,
@@ -144,8 +145,8 @@ PROPS = {
     'C08': ['P7a', 'P7b', 'P7f', 'P7h', 'P7i', 'P2d', 'P8', 'P6b', 'P6c', 'P6d'],
     'C09': ['P1a', 'P1b', 'P1h', 'P3f', 'P6b', 'P9b', 'P9c', 'P9f', 'P9g', 'P10a', 'P10b', 'P10e', 'P10h', 'P11a', 'P11b', 'P11c', 'S1', 'S3', 'W10', 'W13', 'P15i', 'C13map', 'P15', 'P15m', 'P15w', 'P7e', 'P7f'],
     'C10': ['P10a', 'P10b', 'P10c', 'P10d', 'P10f', 'P10g', 'P10h', 'P15', 'P15m', 'P15w', 'P3t', 'P5a', 'S5', 'W9'],
-    'C11': ['P9a', 'P9b', 'P9c', 'P9d', 'P9f', 'P10b', 'P10h', 'P10d', 'P10e', 'P10f', 'P10g', 'P1b', 'P11e', 'P11g', 'P12d'],
-    'C12': DATAPATH + ['W6', 'W7'],
+    'C11': ['P9a', 'P9b', 'P9c', 'P9d', 'P9f', 'P10b', 'P10h', 'P11i', 'P10d', 'P10e', 'P10f', 'P10g', 'P1b', 'P11e', 'P11g', 'P12d'],
+    'C12': DATAPATH + ['W6'],
     'C13': FUTURES + ['C13map', 'P2c', 'P9c', 'W10'],
     'C14': FUTURES,
     'C15': FUTURES + ['P7a', 'S3'],
